@@ -127,9 +127,13 @@ def cleanupNew (A : Allocator) (h : Heap) (size align : Nat) : NewOut × Heap :=
 /-- `impl Drop for Cleanup`: poison the block with 0xff, then `dealloc(ptr, layout)`. -/
 def cleanupDropCall (c : Cleanup) : ACall := .dealloc c.ptr c.size c.align
 
+/-- the poison loop of `Drop for Cleanup`: `for i in 0..layout.size() { *ptr.add(i) = 0xff }` — the bytes it
+writes are exactly `[ptr, ptr + size)` -/
+def cleanupPoison (h : Heap) (c : Cleanup) : Heap :=
+  { h with mem := fun a => if c.ptr ≤ a ∧ a < c.ptr + c.size then 255 else h.mem a }
+
 def cleanupDrop (A : Allocator) (h : Heap) (c : Cleanup) : Heap :=
-  let h1 : Heap := { h with mem := fun a => if c.ptr ≤ a ∧ a < c.ptr + c.size then 255 else h.mem a }
-  (A.exec h1 (cleanupDropCall c)).2
+  (A.exec (cleanupPoison h c) (cleanupDropCall c)).2
 
 /-- `Cleanup::forget`: `mem::forget(self)` -/
 def cleanupForget (h : Heap) (_c : Cleanup) : Heap := h
